@@ -20,7 +20,11 @@ from fractions import Fraction as F
 from pathlib import Path
 
 VERIF = Path(__file__).resolve().parent.parent
-LEAN = VERIF / "lean"
+# VERIF_LEAN / VERIF_OUT: developer facility for trying MANY changed trees in parallel (harness/seedpool.py): each
+# worker checks its own scratch worktree (VERIF_REPO) against its own copy of the Lean project and writes its replays
+# to its own directory.  The registered commands never set them: they use /verif/lean and /verif/replays.
+LEAN = Path(os.environ.get("VERIF_LEAN") or (VERIF / "lean"))
+REPLAYS = Path(os.environ.get("VERIF_OUT") or (VERIF / "replays"))
 GEN = LEAN / "TeaTasting" / "Gen"
 SNAP = LEAN / "GenSnapshot"
 REPO = Path(os.environ.get("VERIF_REPO", "/repo"))
@@ -426,11 +430,11 @@ class Check:
         sys.exit(rc)
 
     def write_replay(self, obj: dict) -> str:
-        d = VERIF / "replays"
-        d.mkdir(exist_ok=True)
+        d = REPLAYS
+        d.mkdir(exist_ok=True, parents=True)
         p = d / f"{self.prop}-{self.tier}-seed{self.seed}.json"
         p.write_text(json.dumps(obj, indent=1, default=str))
-        return str(p.relative_to(VERIF))
+        return str(p.relative_to(VERIF)) if p.is_relative_to(VERIF) else str(p)
 
     def write_evidence(self, violations: int) -> None:
         cov = dict(self.cov)
@@ -456,7 +460,7 @@ class Check:
         # evidence/ describes /repo itself; a run against another tree (VERIF_REPO=<scratch worktree>, used to try
         # changes) must never overwrite it
         foreign = os.path.realpath(str(REPO)) != os.path.realpath("/repo")
-        d = (VERIF / "replays" / "evidence-other-tree") if foreign else (VERIF / "evidence")
+        d = (REPLAYS / "evidence-other-tree") if foreign else (VERIF / "evidence")
         d.mkdir(parents=True, exist_ok=True)
         (d / f"{self.prop}.json").write_text(json.dumps(ev, indent=1, default=str))
 
